@@ -31,6 +31,7 @@ import (
 	gatewayclientset "github.com/kubewharf/kubegateway/pkg/client/kubernetes"
 	gatewayfake "github.com/kubewharf/kubegateway/pkg/client/kubernetes/fake"
 	typedv1alpha1 "github.com/kubewharf/kubegateway/pkg/client/kubernetes/typed/proxy/v1alpha1"
+	"github.com/kubewharf/kubegateway/pkg/ratelimiter/limiter"
 	_interface "github.com/kubewharf/kubegateway/pkg/ratelimiter/store/interface"
 	k8sstore "github.com/kubewharf/kubegateway/pkg/ratelimiter/store/k8s"
 )
@@ -89,7 +90,13 @@ type jInterObs struct {
 	Res string `json:"res"` // "" = never issued
 }
 
+type jAtt struct {
+	Ord []jKey `json:"ord"`
+	Res string `json:"res"`
+}
+
 type jStep struct {
+	Atts  []jAtt        `json:"atts"` // graceful stop through the limiter: one entry per Stop() attempt
 	Res   string        `json:"res"`
 	IRes  []string      `json:"ires"`           // results of interleaved operations, in execution order
 	Ord   []jKey        `json:"ord"`            // flush / stop: order in which items were written
@@ -308,6 +315,31 @@ func (r *rig) reactor(action clienttesting.Action) (bool, runtime.Object, error)
 	}
 }
 
+// stopProxy is handed to the limiter's stopLimitStoreWithRetry instead of the store itself: it
+// delegates Stop to the real store and notes, per attempt, the flush order and the outcome.
+type stopProxy struct {
+	_interface.LimitStore
+	r    *rig
+	atts []jAtt
+}
+
+func (p *stopProxy) Stop() error {
+	r := p.r
+	r.inFlush = true
+	r.flushGoid = goid()
+	r.seen = map[[2]string]bool{}
+	r.ord = nil
+	r.inter = map[[2]string]int{}
+	err := p.LimitStore.Stop()
+	r.inFlush = false
+	a := jAtt{Ord: []jKey{}, Res: classify(err)}
+	for _, k := range r.ord {
+		a.Ord = append(a.Ord, jKey{toB(k[0]), toB(k[1])})
+	}
+	p.atts = append(p.atts, a)
+	return err
+}
+
 // ---------------------------------------------------------------- operations
 
 func classify(err error) string {
@@ -513,6 +545,16 @@ func runC19(raw json.RawMessage) interface{} {
 		case op.Op == "flush":
 			st.Res, st.IRes = r.flushLike(op, func() error { return r.store.Flush() })
 			st.IObs = r.iobs
+		case op.Op == "gstop":
+			// graceful stop the way the limiter does it when it loses the shard
+			px := &stopProxy{LimitStore: r.store, r: r}
+			limiter.VerifStopLimitStoreWithRetry(px, op.Shard)
+			st.Atts = px.atts
+			st.Res = "err"
+			if n := len(px.atts); n > 0 && px.atts[n-1].Res == "ok" {
+				st.Res = "ok"
+			}
+			r.ord = nil
 		case op.Op == "stop":
 			st.Res, st.IRes = r.flushLike(op, func() error { return r.store.Stop() })
 		case op.Op == "load":
